@@ -702,8 +702,12 @@ theorem source_exits_release :
       has "Server.Close" "call s.tg.Stop" && has "SingleAddressWallet.Close" "call sw.tg.Stop") = true) ∧
     ((before "Server.Serve" "go{" "call s.tg.Add" &&
       before "Server.Serve" "call s.tg.Add" "call s.handleHostStream" &&
-      before "Server.Serve" "defer call done" "call s.handleHostStream") = true) :=
+      before "Server.Serve" "defer call done" "call s.handleHostStream") = true) ∧
+    -- every relay goroutine of a broadcast joins the thread group itself
+    ((before "Syncer.withPeers" "go{" "call s.tg.Add" &&
+      beforeFrom "Syncer.withPeers" "go{" "call s.tg.Add" "call fn" &&
+      beforeFrom "Syncer.withPeers" "go{" "defer call done" "call fn") = true) :=
   ⟨handler_defers_cover_every_exit, runPeer_reject_returns_slot, runPeer_take_blocks, runPeer_closes_peer,
-   closes_stop_group, serve_joins_group⟩
+   closes_stop_group, serve_joins_group, withPeers_registers_each_goroutine⟩
 
 end Verif.C18
